@@ -241,3 +241,72 @@ def check_identity(expr, rng=None, constraint=None, scale=None):
     if prove_zero(expr):
         return 'proved', None
     return 'unknown', None
+
+
+# --------------------------------------------------------------------------
+# arithmetic equality of two source expressions, opaque atoms by text
+# --------------------------------------------------------------------------
+class OpaqueLifter(Lifter):
+    """Every attribute / subscript / call that is not arithmetic becomes a
+    real symbol keyed by its canonical text; np.dot(a, b) is a symmetric
+    function of its two arguments; `@` is an ordered product."""
+    def _atom(self, node):
+        t = ast.unparse(node)
+        if t not in self.symbols:
+            self.symbols[t] = sp.Symbol('«%s»' % t, real=True)
+        return self.symbols[t]
+
+    def l_Name(self, n):
+        try:
+            return super().l_Name(n)
+        except AnalysisError:
+            return self._atom(n)
+
+    def l_Attribute(self, n):
+        t = ast.unparse(n)
+        if t in PI_NAMES:
+            return sp.pi
+        if n.attr == 'T':
+            return self.lift(n.value)
+        return self._atom(n)
+
+    def l_Subscript(self, n):
+        return self._atom(n)
+
+    def l_Call(self, n):
+        fn = ast.unparse(n.func)
+        if fn in ('np.dot', 'numpy.dot') and len(n.args) == 2:
+            a, b = self.lift(n.args[0]), self.lift(n.args[1])
+            args = sorted([a, b], key=sp.srepr)
+            return sp.Function('dot')(*args)
+        if fn in ('np.sqrt', 'math.sqrt', 'sqrt', 'abs', 'np.abs',
+                  'float', 'np.asarray', 'np.array') and len(n.args) == 1:
+            return super().l_Call(n)
+        return self._atom(n)
+
+    def l_BinOp(self, n):
+        if isinstance(n.op, ast.MatMult):
+            l, r = self.lift(n.left), self.lift(n.right)
+            return sp.Function('matmul')(l, r)
+        return super().l_BinOp(n)
+
+
+def same_expr(node, expected_src):
+    """Are the two expressions equal as arithmetic terms over their opaque
+    atoms (commutativity, associativity, distribution, x*x == x**2 ...)?
+    `node` is an ast node, `expected_src` python source."""
+    L = OpaqueLifter()
+    try:
+        a = L.lift(node)
+        b = L.lift(ast.parse(expected_src, mode='eval').body)
+    except AnalysisError:
+        return ast.dump(node) == ast.dump(
+            ast.parse(expected_src, mode='eval').body)
+    try:
+        return sp.simplify(a - b) == 0
+    except Exception:
+        return False
+
+
+def same_any(node, *expected):
+    return node is not None and any(same_expr(node, e) for e in expected)
